@@ -4,6 +4,7 @@
  * uv_write2/uv_try_write2 refusal table.  One scenario per process; program on stdin:
  *   server <sid> t4|t6|un imm|defer|never     raw <cid> <sid>     uvc <cid> <sid>     run <n>
  *   inject <errno>...      accept <sid> [busy]     drain <sid>     closesrv <sid>     closecli <cid>
+ *   ipcbig <kinds> <payload> <caps..>   (uv_write2 with handle + payload; the k-th syscall on the sending fd accepts at most caps[k] bytes, -11 = EAGAIN, 0 = unlimited)
  *   badconnect <cid> tcp|pipe|long|longnt [close]     dblconnect <cid> <cid>     ipc <kinds> <late|imm|N>     wcheck     end
  * Output: one line per API result / callback / observation (see checks/c07_sim.py). */
 #include <uv.h>
@@ -18,6 +19,7 @@
 #include <sys/stat.h>
 #include <sys/syscall.h>
 #include <sys/un.h>
+#include <sys/uio.h>
 #include <netinet/in.h>
 #include <arpa/inet.h>
 #include "uv-common.h"
@@ -33,6 +35,41 @@ int accept4(int s, struct sockaddr* a, socklen_t* l, int flags) {
     if (e != 0) { fired++; printf("accept4 injected %d\n", -e); errno = e; return -1; }
   }
   return syscall(SYS_accept4, s, a, l, flags);
+}
+
+/* ---- syscalls on the sending end of the IPC pipe: scripted short transfers, one log line each */
+static int tx_fd = -1, caps[256], ncaps, icaps;
+static int tx_head_req(void);
+static int tx_handle_of(const struct msghdr* m);
+static ssize_t tx_do(const char* what, const struct msghdr* m, const struct iovec* iov, int iovcnt) {
+  size_t asked = 0; ssize_t r; int i, cap = 0, hidx = m ? tx_handle_of(m) : -1, req = tx_head_req();
+  struct iovec v[64]; struct msghdr mm;
+  for (i = 0; i < iovcnt; i++) asked += iov[i].iov_len;
+  if (icaps < ncaps) cap = caps[icaps++];
+  if (cap < 0) { errno = -cap; r = -1; }
+  else {
+    size_t left = cap > 0 ? (size_t) cap : asked; int k = 0;
+    for (i = 0; i < iovcnt && i < 64 && left > 0; i++) { v[k] = iov[i]; if (v[k].iov_len > left) v[k].iov_len = left; left -= v[k].iov_len; k++; }
+    if (k == 0) { v[0].iov_base = (void*) ""; v[0].iov_len = 0; k = 1; }
+    if (m) { mm = *m; mm.msg_iov = v; mm.msg_iovlen = k; r = syscall(SYS_sendmsg, tx_fd, &mm, MSG_NOSIGNAL); }
+    else r = syscall(SYS_writev, tx_fd, v, k);
+  }
+  printf("tx %s req=%d handle=", what, req);
+  if (hidx >= 0) printf("%d", hidx); else printf("-");
+  printf(" asked=%zu ret=%zd\n", asked, r < 0 ? (ssize_t) -errno : r);
+  return r;
+}
+ssize_t sendmsg(int fd, const struct msghdr* m, int flags) {
+  if (fd == tx_fd) return tx_do("sendmsg", m, m->msg_iov, (int) m->msg_iovlen);
+  return syscall(SYS_sendmsg, fd, m, flags);
+}
+ssize_t writev(int fd, const struct iovec* iov, int n) {
+  if (fd == tx_fd) return tx_do("writev", NULL, iov, n);
+  return syscall(SYS_writev, fd, iov, n);
+}
+ssize_t write(int fd, const void* b, size_t n) {
+  if (fd == tx_fd) { struct iovec v; v.iov_base = (void*) b; v.iov_len = n; return tx_do("writev", NULL, &v, 1); }
+  return syscall(SYS_write, fd, b, n);
 }
 
 typedef struct { uv_stream_t* h; int kind; int mode; int alive; int announced, claimed; char path[64]; int port; } server_t;
@@ -162,6 +199,61 @@ static void do_ipc(const char* kinds, const char* pol) {
   printf("ipcdone sent=%d got=%d wcbs=%d\n", nsent, ngot, nwcb);
 }
 
+/* ---- uv_write2 with a handle *and* a payload that needs several syscalls */
+static int big_payload, big_bad; static size_t big_bytes;
+static int tx_head_req(void) {
+  struct uv__queue* q;
+  if (uv__queue_empty(&ipc_tx.write_queue)) return -1;
+  q = uv__queue_head(&ipc_tx.write_queue);
+  return (int) (uv__queue_data(q, uv_write_t, queue) - wreqs);
+}
+static int tx_handle_of(const struct msghdr* m) {
+  struct cmsghdr* c = m->msg_controllen ? CMSG_FIRSTHDR((struct msghdr*) m) : NULL; int fd, i;
+  if (c == NULL || c->cmsg_type != SCM_RIGHTS) return -1;
+  memcpy(&fd, CMSG_DATA(c), sizeof fd);
+  for (i = 0; i < nsent; i++) { int f = -1; uv_fileno(sent[i], &f); if (f == fd) return i; }
+  return 99;
+}
+static void big_alloc(uv_handle_t* h, size_t n, uv_buf_t* b) { static char buf[65536]; *b = uv_buf_init(buf, sizeof buf); }
+static void big_read(uv_stream_t* s, ssize_t n, const uv_buf_t* b) {
+  ssize_t i;
+  if (n <= 0) { if (n < 0 && n != UV_EOF) printf("bigread err=%d\n", (int) n); return; }
+  for (i = 0; i < n; i++, big_bytes++) if (b->base[i] != (char) ('a' + (big_bytes / big_payload) % 26)) big_bad++;
+  printf("bigread bytes=%zu pc=%d type=%s\n", big_bytes, uv_pipe_pending_count(&ipc_rx), tyname(uv_pipe_pending_type(&ipc_rx)));
+}
+static void do_ipcbig(const char* kinds, int payload, char** capw, int ncapw) {
+  int sv[2], i, rounds; static char* bufs[64];
+  socketpair(AF_UNIX, SOCK_STREAM, 0, sv);
+  uv_pipe_init(loop, &ipc_tx, 1); uv_pipe_open(&ipc_tx, sv[0]);
+  uv_pipe_init(loop, &ipc_rx, 1); uv_pipe_open(&ipc_rx, sv[1]);
+  big_payload = payload; ipc_policy = -1;
+  for (i = 0; i < ncapw && i < 256; i++) caps[ncaps++] = atoi(capw[i]);
+  uv_read_start((uv_stream_t*) &ipc_rx, big_alloc, big_read);
+  tx_fd = sv[0];
+  for (i = 0; kinds[i] && i < 64; i++) {
+    struct sockaddr_in a; uv_handle_t* h; uv_buf_t buf; int r;
+    uv_ip4_addr("127.0.0.1", 0, &a);
+    if (kinds[i] == 't') { uv_tcp_t* x = malloc(sizeof *x); uv_tcp_init(loop, x); uv_tcp_bind(x, (struct sockaddr*) &a, 0); h = (uv_handle_t*) x; }
+    else if (kinds[i] == 'u') { uv_udp_t* x = malloc(sizeof *x); uv_udp_init(loop, x); uv_udp_bind(x, (struct sockaddr*) &a, 0); h = (uv_handle_t*) x; }
+    else { int p[2]; uv_pipe_t* x = malloc(sizeof *x); socketpair(AF_UNIX, SOCK_STREAM, 0, p); uv_pipe_init(loop, x, 0); uv_pipe_open(x, p[0]); close(p[1]); h = (uv_handle_t*) x; }
+    { int fd = -1; uv_fileno(h, &fd); sent[nsent] = h; sent_ino[nsent] = fd_ino(fd); sent_kind[nsent] = kinds[i]; nsent++; }
+    bufs[i] = malloc(payload); memset(bufs[i], 'a' + i % 26, payload); buf = uv_buf_init(bufs[i], payload);
+    printf("ipcenq %d\n", i);          /* the first uv_write2 tries to send before it returns */
+    r = uv_write2(&wreqs[i], (uv_stream_t*) &ipc_tx, &buf, 1, (uv_stream_t*) h, ipc_wcb);
+    printf("ipcsend %d kind=%c bytes=%d r=%d\n", i, kinds[i], payload, r);
+  }
+  for (rounds = 0; rounds < 4000 && (nwcb < nsent || big_bytes < (size_t) payload * nsent); rounds++) uv_run(loop, UV_RUN_NOWAIT);
+  for (i = 0; i < 4; i++) uv_run(loop, UV_RUN_NOWAIT);
+  tx_fd = -1;
+  printf("ipcbigread bytes=%zu pc=%d wcbs=%d baddata=%d\n", big_bytes, uv_pipe_pending_count(&ipc_rx), nwcb, big_bad);
+  for (i = 0; i < 200 && uv_pipe_pending_count(&ipc_rx) > 0; i++) ipc_take();
+  { uv_pipe_t* x = malloc(sizeof *x); int r; uv_pipe_init(loop, x, 0); r = uv_accept((uv_stream_t*) &ipc_rx, (uv_stream_t*) x); printf("ipcempty r=%d pc=%d type=%s\n", r, uv_pipe_pending_count(&ipc_rx), tyname(uv_pipe_pending_type(&ipc_rx))); uv_close((uv_handle_t*) x, free_cb); }
+  for (i = 0; i < nsent; i++) { uv_close(sent[i], free_cb); free(bufs[i]); }
+  uv_close((uv_handle_t*) &ipc_tx, NULL); uv_close((uv_handle_t*) &ipc_rx, NULL);
+  for (i = 0; i < 4; i++) uv_run(loop, UV_RUN_NOWAIT);
+  printf("ipcbigdone sent=%d got=%d wcbs=%d bytes=%zu\n", nsent, ngot, nwcb, big_bytes);
+}
+
 /* ------------------------------------------------------------------ write2 / try_write2 refusal table */
 static void nop_wcb(uv_write_t* r, int s) {}
 static void do_wcheck(void) {
@@ -268,6 +360,7 @@ int main(void) {
       cli[b].ret = uv_pipe_connect2(&cli[b].req, (uv_pipe_t*) cli[b].h, path, strlen(path), 0, connect_cb);
       printf("dblconnect %d r=%d %d r=%d\n", a, cli[a].ret, b, cli[b].ret);
     } else if (!strcmp(w[0], "ipc") && n == 3) { do_ipc(w[1], w[2]);
+    } else if (!strcmp(w[0], "ipcbig") && n >= 3) { do_ipcbig(w[1], atoi(w[2]), w + 3, n - 3);
     } else if (!strcmp(w[0], "wcheck")) { do_wcheck();
     } else if (!strcmp(w[0], "end")) { break;
     } else printf("bad-op\n");
